@@ -1,11 +1,14 @@
 """C17 — Folding constant expressions gives the value Python gives.
 
-Theorems: lean/Tranp/Props/C17.lean over lean/Tranp/Model/Evaluator.lean (+ generated lean/Tranp/Generated/EvalOps.lean).
+Theorems: lean/Tranp/Props/C17.lean over lean/Tranp/Model/Evaluator.lean, EmitValue.lean, CppLiteral.lean (+ generated lean/Tranp/Generated/EvalOps.lean,
+          RelayLiteralize.lean, UnicodeDigits.lean (decimal digits and blanks of int()), PyEscapes.lean (one-character escapes)).
 Tie:    stream `evalimpl`  real LiteralEvaluator.exec(node) on the members of generated Enum modules  vs  `execImpl`
         stream `evalpy`    CPython eval() of the same member texts                                     vs  `evalPy`
         (floats: the model computes a TERM over the abstract float operations; the harness interprets every term the model asks
          about with CPython's float operations — the `oracle` lines — so nothing is rounded on the Lean side)
-        stream `unescape`  CPython's decoding of octal escapes in a literal body                       vs  `decodeOct`
+        stream `unescape`  CPython's decoding of the escapes in a literal body                         vs  `decodeEsc`
+        stream `cppread`   g++ -std=c++20 -pedantic reading "body" as a narrow string literal            vs  `cppBytes` (Model/CppLiteral.lean),
+                           CPython reading 'body', UTF-8 encoded vs `utf8s ∘ decodeEsc`; the harness reader `cpp_read` vs g++
         stream `emitvalue` the text the real Py2Cpp.on_relay inlines for every Enum.Member.value read   vs  `emitValue`
 Search: on the real code alone: exec(e) == eval(e) with equal type, or an application error (Errors.*), on the same generator
         including the formerly defective regions (big-int division, triple-quoted / prefixed strings, str() of a string, casts
@@ -266,10 +269,12 @@ class Gen:
 				return text, e
 		if self.on('escape', 0.1):
 			self.feats.add('escape')
-			esc = self.rng.choice(['\\n', '\\t', '\\\\', '\\1', '\\0', '\\x41', '\\' + q, '\\12', '\\u00e9', '\\u4E2d', '\\U0001f600', '\\u0037', '\\xe9'])
+			esc = self.rng.choice(['\\n', '\\t', '\\\\', '\\1', '\\0', '\\x41', '\\' + q, '\\12', '\\u00e9', '\\u4E2d', '\\U0001f600', '\\u0037', '\\xe9', '\\d', '\\?', '\\x41', '\\351'])
 			parts = [body[:1], esc, body[1:]] if self.rng.random() < 0.5 else [body, esc]
 			text = f"{q}{''.join(parts)}{q}"
-			return text, eval(text, {'__builtins__': {}})
+			with warnings.catch_warnings():
+				warnings.simplefilter('ignore')  # an unknown escape (`\\d`) is a SyntaxWarning
+				return text, eval(text, {'__builtins__': {}})
 		return f'{q}{body}{q}', body
 
 	# -- references -------------------------------------------------------------------------
@@ -1434,6 +1439,14 @@ def make_py2cpp_app(ctx: Ctx) -> Any:
 
 
 def read_emitted(text: str) -> tuple[str, Any] | None:
+	"""Never raises (whatever text a changed transpiler emits): an unreadable text is `None`."""
+	try:
+		return _read_emitted(text)
+	except Exception:  # noqa: BLE001
+		return None
+
+
+def _read_emitted(text: str) -> tuple[str, Any] | None:
 	"""The literal py2cpp emitted for an `Enum.X.value` read (relay/literalize.j2: a number as is, anything else between double quotes)."""
 	import ast
 	t = text.strip()
@@ -1686,10 +1699,11 @@ STATEMENTS = {
 def run(ctx: Ctx) -> int:
 	translate_ok, translate_msg = True, ''
 	try:
-		from translate import gen_eval_ops, gen_literalize, gen_unicode_digits
+		from translate import gen_eval_ops, gen_literalize, gen_py_escapes, gen_unicode_digits
 		ctx.generated_tables.extend(gen_eval_ops.generate())
 		ctx.generated_tables.extend(gen_literalize.generate())
 		ctx.generated_tables.extend(gen_unicode_digits.generate())
+		ctx.generated_tables.extend(gen_py_escapes.generate())
 	except Exception as e:  # noqa: BLE001
 		translate_ok, translate_msg = False, f'translator: {type(e).__name__}: {e}'
 	proof = common.prove(ctx, PROP, leanchecker=ctx.thorough)
@@ -1731,7 +1745,7 @@ def run(ctx: Ctx) -> int:
 			'a member whose CPython evaluation raises is modelled as re-raising when read (CPython would abort the module)',
 			'names of enum members do not shadow the called builtins; own-enum members are referenced by bare name, other enums as Enum.Member.value',
 			'recursion depth of the generated cases stays below both Python\'s recursion limit and the model\'s fuel',
-			"int(str) reads every Unicode decimal digit (category Nd; the table of the 0..9 blocks is generated from the interpreter's unicodedata on every run: Generated/UnicodeDigits.lean); blanks: C isspace + Unicode White_Space beyond ASCII; float(str) is the abstract ops.parse (interpreted by CPython in the tie)",
+			"int(str) reads every Unicode decimal digit (category Nd; the table of the 0..9 blocks is generated from the interpreter's unicodedata on every run: Generated/UnicodeDigits.lean); the blanks int()/float() strip are measured on the interpreter on every run as well (Generated/UnicodeDigits.intBlanks); float(str) is the abstract ops.parse (interpreted by CPython in the tie)",
 			"CPython's 4300-digit limit of int/str conversion is lifted in the harness process (the model has none)",
 		],
 		trusted=['the harness interpreter of float terms (harness/c17.py eval_term/answer) uses CPython float operations',
